@@ -108,7 +108,7 @@ pub fn test_case(case: &SerCase) -> TestResult {
         ))
 }
 
-fn case_strategy() -> impl Strategy<Value = SerCase> {
+pub fn case_strategy() -> impl Strategy<Value = SerCase> {
     (
         prop_oneof![
             1 => gen::model_case(ModelCfg { allow_255: false, max_texts: 3, ..ModelCfg::BOUNDARY }),
@@ -124,7 +124,7 @@ fn case_strategy() -> impl Strategy<Value = SerCase> {
 }
 
 pub fn run(rep: &mut Report) {
-    let n = rep.n(2500, 80000);
+    let n = rep.n(12000, 120000);
     rep.run_prop(
         "serialize-deserialize",
         "generated models (with/without tag models; type windows on both sides of the cache limit; \
